@@ -258,6 +258,7 @@ func (d *clientPrimaryDownloader) run(ctx context.Context) error {
 	}
 
 	for _, stream := range streams {
+		verifYield("client.primary.beforeStartStreaming")
 		select {
 		case stream.chStartStreaming <- d.clientTracks:
 		case <-ctx.Done():
